@@ -199,7 +199,7 @@ fn gen_custom(rng: &mut Rng, depth: u32, frozen: bool, s: &mut String) -> (Strin
         5 => {
             s.push_str("VectorType(");
             let (c, sh) = gen_custom(rng, depth - 1, frozen, s);
-            let dim = *rng.pick(&[0u16, 1, 2, 3, 65535]);
+            let dim = *rng.pick(&[1u16, 1, 2, 3, 65535]); // 0 is rejected since fix 2a278cb
             s.push_str(sep(rng));
             s.push_str(&format!("{}{})", if rng.chance(1, 5) { "00" } else { "" }, dim));
             (format!("vector<{},{}>", c, dim), Shape::Vector(Box::new(sh), dim))
@@ -1073,7 +1073,7 @@ pub fn generate(rng: &mut Rng, tier: Tier, emit: &mut dyn FnMut(String)) {
     for s in [
         "", " ", "(", ")", "ListType", "ListType(", "ListType()", "ListType(!)", "ListType(Int32Type", "ListType(Int32Type,", "ListType(Int32Type,Int32Type)",
         "MapType(Int32Type)", "MapType(!)", "MapType(Int32Type,!)", "MapType(Int32Type,Int32Type,Int32Type)", "TupleType()", "TupleType(", "TupleType(Int32Type,!)",
-        "VectorType()", "VectorType(Int32Type)", "VectorType(Int32Type,)", "VectorType(Int32Type,65536)", "VectorType(Int32Type,65535)", "VectorType(Int32Type,3",
+        "VectorType()", "VectorType(Int32Type,0)", "VectorType(Int32Type,00)", "VectorType(Int32Type,0", "VectorType(Int32Type)", "VectorType(Int32Type,)", "VectorType(Int32Type,65536)", "VectorType(Int32Type,65535)", "VectorType(Int32Type,3",
         "VectorType(Int32Type 3)", "UserType()", "UserType(ks,6e)", "UserType(ks,6e,61:Int32Type)", "UserType(ks,6e,6:Int32Type)", "UserType(ks,zz)", "UserType(ks,c328)",
         "UserType(ks,6e,61 Int32Type)", "UserType(ks,6e,:Int32Type)", "UserType(ks,6e", "FrozenType()", "FrozenType(ListType(Int32Type))", "FrozenType(Int32Type,Int32Type)",
         "zz:Int32Type", "+:Int32Type", "+1:Int32Type", "-1:Int32Type", "11111111111111111:Int32Type", "0000000000000000000001:Int32Type", "1:", "1:(", "Int32Type garbage",
@@ -1087,6 +1087,38 @@ pub fn generate(rng: &mut Rng, tier: Tier, emit: &mut dyn FnMut(String)) {
     for k in [1usize, 2, 6, 12, 26] {
         let s = format!("{}LongType{}", "ListType(LongType,".repeat(k), ")".repeat(k));
         emit(case_line(&nofeat, false, 'n', None, &rows_frame_with_type(&custom_type_bytes(s.as_bytes()))));
+    }
+
+    // vectors: element size overflow (8 * 65535^4, fix 2692908) and zero dimensions (fix 2a278cb), with a cell
+    for (dims, inner) in [
+        (vec![65535u32, 65535, 65535, 65535, 1], "LongType"),
+        (vec![65535, 65535, 65535, 65535, 65535], "LongType"),
+        (vec![32768, 32768, 32768, 32768, 2], "LongType"),
+        (vec![65535, 65535, 65535, 65535], "LongType"),
+        (vec![0, 65535, 65535], "Int32Type"),
+        (vec![0, 10000, 10000], "Int32Type"),
+        (vec![0, 65535], "Int32Type"),
+        (vec![0], "Int32Type"),
+        (vec![1, 65535, 65535], "Int32Type"),
+        (vec![65535, 0], "Int32Type"),
+    ] {
+        let mut s = inner.to_owned();
+        for d in dims {
+            s = format!("VectorType({}, {})", s, d);
+        }
+        for cell in [&[0u8][..], &[][..], &[0, 0, 0, 1, 0, 0, 0, 2][..]] {
+            let mut b = B::default();
+            b.int(2);
+            b.int(1);
+            b.int(1);
+            b.string(b"k");
+            b.string(b"t");
+            b.string(b"c");
+            b.raw(&custom_type_bytes(s.as_bytes()));
+            b.int(1);
+            b.bytes(cell);
+            emit(case_line(&nofeat, false, 'n', None, &frame_bytes(0, 0, 0x08, &b.out)));
+        }
     }
 
     // huge counts in front of (almost) nothing: must be refused without a proportional allocation
